@@ -119,6 +119,20 @@ func (r *EntRepository) UpdateById(
 	}
 	param = param.Normalize()
 
+	if param.WorkId.IsNone() && param.Param.IsNone() && param.Priority.IsNone() &&
+		param.ScheduledAt.IsNone() && param.Deadline.IsNone() && param.Meta.IsNone() {
+		// Nothing to set: no UPDATE statement would be issued,
+		// and then the state guard below would not be evaluated.
+		t, err := r.GetById(ctx, id)
+		if err != nil {
+			return err
+		}
+		if t.State != def.TaskScheduled {
+			return def.ErrKindUpdate(t)
+		}
+		return nil
+	}
+
 	builder := r.client.Task.UpdateOneID(id).Where(task.StateEQ(task.DefaultState))
 	if param.WorkId.IsSome() {
 		builder = builder.SetWorkID(param.WorkId.Value())
